@@ -4,7 +4,7 @@
 set -u
 ID=$1; WT=$2; OUT=$3
 cd $WT || exit 2
-git stash -q 2>/dev/null; git checkout -q -- . 2>/dev/null
+git checkout -q -- src 2>/dev/null
 cp $OUT/seed_demo.rs tests/seed_demo.rs
 echo "== demo WITHOUT change"; cargo test --offline --test seed_demo 2>&1 | grep -E "^test result|error\[" | head -3
 git apply $OUT/patch.diff || { echo "patch does not apply"; exit 2; }
